@@ -68,6 +68,10 @@ func (t Tuple) M__str__() (Object, error) {
 }
 
 func (t Tuple) M__repr__() (Object, error) {
+	if len(t) == 1 {
+		// a 1-tuple needs a trailing comma: (2,) - (2) is just 2
+		return t.repr("(", ",)")
+	}
 	return t.repr("(", ")")
 }
 
